@@ -4,6 +4,7 @@ import (
 	"crypto/sha1"
 	"encoding/json"
 
+	cid "github.com/ipfs/go-cid"
 	ds "github.com/ipfs/go-datastore"
 )
 
@@ -23,3 +24,11 @@ func sha(b []byte) []byte {
 }
 
 func sha1sum(b []byte) [20]byte { return sha1.Sum(b) }
+
+func mustCid(s string) cid.Cid {
+	c, err := cid.Decode(s)
+	if err != nil {
+		return cid.Undef
+	}
+	return c
+}
